@@ -335,6 +335,13 @@ def parse_json(filepath):
     with open(filepath) as file_:
         data = json.load(file_)
 
+    # the key of the edge list in the node-link format is "links" or "edges"
+    # depending on the networkx version that wrote the file; accept both
+    if "links" in data and "edges" not in data:
+        data["edges"] = data["links"]
+    elif "edges" in data and "links" not in data:
+        data["links"] = data["edges"]
+
     init_json_graph = nx.Graph(json_graph.node_link_graph(data))
     # the nodes in the inital graph are not ordered, when no resid
     # is given this can create issues. So we reorder the node based
